@@ -868,6 +868,164 @@ def arith(e, seed_id, ctx):
     raise TranslateError('HashCombine: cannot translate %s' % k)
 
 
+# ---------------------------------------------------------------- memory layout of PL terms and string literals
+def find_all(n, name, out=None):
+    if out is None:
+        out = []
+    if n.get('name') == name:
+        out.append(n)
+    for c in n.get('inner', []):
+        find_all(c, name, out)
+    return out
+
+
+def nat_expr(e, is_var):
+    """int index expression over one variable -> Lean Nat term in `k` (int overflow not modelled)"""
+    e = norm(e)
+    k = e.get('kind')
+    if is_var(e):
+        return 'k'
+    if k == 'IntegerLiteral' and int(e['value']) >= 0:
+        return e['value']
+    if k == 'BinaryOperator' and e.get('opcode') in ('+', '*'):
+        l, r = kids(e)
+        return '(%s %s %s)' % (nat_expr(l, is_var), e['opcode'], nat_expr(r, is_var))
+    raise TranslateError('index expression not understood (%s %s)' % (k, e.get('opcode', '')))
+
+
+def is_noop(st):
+    st = norm(st)
+    return st.get('kind') == 'CXXStaticCastExpr' and st.get('type', {}).get('qualType') == 'void'   # MP_ASSERT under NDEBUG
+
+
+def layout_section(repo, work):
+    L = []
+    def one_method(docs, name):
+        ms = [m for d in docs for m in find_all(d, name) if m.get('kind') == 'CXXMethodDecl' and body_of(m) is not None]
+        if len(ms) != 1:
+            raise TranslateError('expected exactly one definition of %s, found %d' % (name, len(ms)))
+        return ms[0]
+    pl = dump(repo, 'mp::PLTerm', work)
+    fac = dump(repo, 'mp::BasicExprFactory', work)
+    sl = dump(repo, 'mp::StringLiteral', work)
+    # accessors: return impl()->data[<index>]
+    for acc in ('slope', 'breakpoint'):
+        m = one_method(pl, acc)
+        st = [x for x in kids(body_of(m)) if not is_noop(x)]
+        p = params(m)
+        r = norm(kids(st[0])[0]) if len(st) == 1 and st[0].get('kind') == 'ReturnStmt' else {}
+        if r.get('kind') != 'ArraySubscriptExpr' or norm(kids(r)[0]).get('name') != 'data' or len(p) != 1:
+            raise TranslateError('PLTerm::%s is not `return impl()->data[<index>]`' % acc)
+        L.append('/-- `PLTerm::%s(k)` reads `data[…]` -/' % acc)
+        L.append('def pl%sRead (k : Nat) : Nat := %s' % (acc.capitalize(), nat_expr(kids(r)[1], lambda e: is_ref_to(e, p[0]['id']))))
+    # builder: impl_->data[<index of counter>] = value; ++counter
+    for meth, acc, counter in (('AddSlope', 'slope', 'slope_index_'), ('AddBreakpoint', 'breakpoint', 'breakpoint_index_')):
+        m = one_method(fac, meth)
+        st = [norm(x) for x in kids(body_of(m)) if not is_noop(x)]
+        p = params(m)
+        ok = len(st) == 2 and st[0].get('kind') == 'BinaryOperator' and st[0].get('opcode') == '=' and len(p) == 1
+        if ok:
+            lhs, rhs = kids(st[0])
+            lhs = norm(lhs)
+            ok = lhs.get('kind') == 'ArraySubscriptExpr' and norm(kids(lhs)[0]).get('name') == 'data' and is_ref_to(rhs, p[0]['id'])
+            inc = st[1]
+            ok = ok and inc.get('kind') == 'UnaryOperator' and inc.get('opcode') == '++' and norm(kids(inc)[0]).get('name') == counter
+        if not ok:
+            raise TranslateError('PLTermBuilder::%s is not `impl_->data[<index>] = v; ++%s;`' % (meth, counter))
+        L.append('/-- the k-th `PLTermBuilder::%s` writes `data[…]` -/' % meth)
+        L.append('def pl%sWrite (k : Nat) : Nat := %s' % (acc.capitalize(), nat_expr(kids(lhs)[1], lambda e: norm(e).get('kind') == 'MemberExpr' and norm(e).get('name') == counter)))
+    # inline array sizes
+    def inline(docs, cls, field, elem):
+        recs = [r for d in docs for r in find_all(d, 'Impl') if r.get('kind') == 'CXXRecordDecl' and r.get('completeDefinition')]
+        fs = [f for r in recs for f in kids(r) if f.get('kind') == 'FieldDecl' and f.get('name') == field]
+        m = re.match(r'^%s\[(\d+)\]$' % re.escape(elem), fs[0].get('type', {}).get('qualType', '')) if len(fs) == 1 else None
+        if not m:
+            raise TranslateError('%s::Impl::%s is not `%s[n]`' % (cls, field, elem))
+        return int(m.group(1))
+    L.append('/-- `PLTerm::Impl::data` is declared `double data[n]` -/')
+    L.append('def plInlineDoubles : Nat := %d' % inline(pl, 'PLTerm', 'data', 'double'))
+    L.append('/-- `StringLiteral::Impl::value` is declared `char value[n]` -/')
+    L.append('def stringInlineBytes : Nat := %d' % inline(sl, 'StringLiteral', 'value', 'char'))
+    # BeginPLTerm: SafeInt<int> size = sizeof(double) * 2; Allocate<PLTerm>(PLTERM, val(size * num_breakpoints)); impl->num_breakpoints = num_breakpoints
+    m = one_method(fac, 'BeginPLTerm')
+    st = [x for x in kids(body_of(m)) if not is_noop(x)]
+    p = params(m)
+    try:
+        v = kids(st[0])[0]
+        mul = norm(kids(v)[0])
+        so, two = [norm(x) for x in kids(mul)]
+        assert mul.get('opcode') == '*' and so.get('kind') == 'UnaryExprOrTypeTraitExpr' and so.get('name') == 'sizeof' and so.get('argType', {}).get('qualType') == 'double'
+        per = 8 * int(two['value'])
+        alloc = norm(kids(kids(st[1])[0])[0])
+        valcall = [a for a in kids(alloc)[1:] if norm(a).get('kind') == 'CallExpr' and callee_name(norm(a))[0] == 'val']
+        nm, a = op_call(kids(norm(valcall[0]))[1])
+        assert nm == 'operator*' and is_ref_to(a[0], v['id']) and is_ref_to(a[1], p[0]['id'])
+        asg = norm(st[2])
+        assert asg.get('opcode') == '=' and norm(kids(asg)[0]).get('name') == 'num_breakpoints' and is_ref_to(kids(asg)[1], p[0]['id'])
+    except (AssertionError, IndexError, KeyError, TypeError):
+        raise TranslateError('BeginPLTerm is not `size = sizeof(double) * c; impl = Allocate<PLTerm>(PLTERM, val(size * n)); impl->num_breakpoints = n`')
+    L.append('/-- `BeginPLTerm(n)` allocates `sizeof(Impl)` plus this many bytes (`sizeof(double)` = 8) and stores `n` -/')
+    L.append('def plExtraBytes (n : Nat) : Nat := %d * n' % per)
+    # MakeStringLiteral: Allocate<StringLiteral>(STRING, val(SafeInt<int>(value.size()))); Copy(value, impl->value)
+    m = one_method(fac, 'MakeStringLiteral')
+    st = kids(body_of(m))
+    p = params(m)
+    try:
+        v = kids(st[0])[0]
+        alloc = norm(kids(v)[0])
+        valcall = [a for a in kids(alloc)[1:] if norm(a).get('kind') == 'CallExpr' and callee_name(norm(a))[0] == 'val']
+        mc = member_call(kids(norm(valcall[0]))[1])
+        assert mc and mc[1] == 'size' and is_ref_to(mc[2], p[0]['id'])
+        cp = norm(st[1])
+        assert cp.get('kind') == 'CallExpr' and callee_name(cp)[0] == 'Copy' and is_ref_to(kids(cp)[1], p[0]['id'])
+        tgt = norm(kids(cp)[2])
+        assert tgt.get('kind') == 'MemberExpr' and tgt.get('name') == 'value' and is_ref_to(kids(tgt)[0], v['id'])
+    except (AssertionError, IndexError, KeyError, TypeError):
+        raise TranslateError('MakeStringLiteral is not `impl = Allocate<StringLiteral>(STRING, val(value.size())); Copy(value, impl->value)`')
+    L.append('/-- `MakeStringLiteral(value)` allocates `sizeof(Impl)` plus this many bytes for a string of the given size -/')
+    L.append('def stringExtraBytes (size : Nat) : Nat := size')
+    # Copy(src, dst)
+    m = one_method(fac, 'Copy')
+    st = kids(body_of(m))
+    p = params(m)
+    prog = []
+    try:
+        s_var, size_var = kids(st[0])[0], kids(st[1])[0]
+        m0, m1 = member_call(kids(s_var)[0]), member_call(kids(size_var)[0])
+        assert m0[1] == 'data' and m1[1] == 'size' and is_ref_to(m0[2], p[0]['id']) and is_ref_to(m1[2], p[0]['id'])
+        for x in st[2:]:
+            xn = norm(x)
+            if xn.get('kind') == 'IfStmt':
+                c = raw_kids(xn)
+                cond = norm(c[0])
+                then = c[1] if c[1].get('kind') != 'CompoundStmt' else kids(c[1])[0]
+                assert len(c) == 2 and cond.get('opcode') == '==' and is_ref_to(kids(cond)[0], size_var['id']) and int(norm(kids(cond)[1])['value']) == 0
+                assert then.get('kind') == 'ReturnStmt' and not kids(then)
+                prog.append('.returnIfSizeZero')
+            elif xn.get('kind') == 'CallExpr' and callee_name(xn)[0] == 'copy':
+                a = kids(xn)[1:]
+                end = norm(a[1])
+                dst = norm(a[2])
+                if dst.get('kind') == 'CallExpr' and callee_name(dst)[0] == 'make_ptr':
+                    dst = norm(kids(dst)[1])
+                assert is_ref_to(a[0], s_var['id']) and end.get('opcode') == '+' and is_ref_to(kids(end)[0], s_var['id']) and is_ref_to(kids(end)[1], size_var['id'])
+                assert dst.get('kind') == 'DeclRefExpr' and dst['referencedDecl']['id'] == p[1]['id']
+                prog.append('.copyBytes')
+            elif xn.get('kind') == 'BinaryOperator' and xn.get('opcode') == '=':
+                lhs = norm(kids(xn)[0])
+                assert lhs.get('kind') == 'ArraySubscriptExpr' and is_ref_to(kids(lhs)[0], p[1]['id']) and is_ref_to(kids(lhs)[1], size_var['id'])
+                assert int(norm(kids(xn)[1])['value']) == 0
+                prog.append('.storeNulAtSize')
+            else:
+                raise AssertionError()
+    except (AssertionError, IndexError, KeyError, TypeError, ValueError):
+        raise TranslateError('BasicExprFactory::Copy is not a sequence of `if (size == 0) return;` / `std::copy(s, s + size, dst)` / `dst[size] = 0` after `s = src.data(); size = src.size()`')
+    L.append('/-- `BasicExprFactory::Copy(src, dst)` after `s = src.data(); size = src.size();` -/')
+    L.append('def factoryCopy : List CopyStmt := [%s]' % ', '.join(prog))
+    L.append('')
+    return L
+
+
 def main():
     repo, out, work = sys.argv[1], sys.argv[2], sys.argv[3]
     os.makedirs(work, exist_ok=True)
@@ -1028,10 +1186,9 @@ def main():
     # helper members of the handle classes the loop handlers rely on (include/mp/expr.h): syntax trees only
     helpers = {}
     for clsname, wanted in (('Function', ('operator==', 'operator!=', 'name')),
-                            ('PLTerm', ('num_breakpoints', 'breakpoint', 'slope', 'arg')),
+                            ('PLTerm', ('num_breakpoints', 'arg')),
                             ('CallExpr', ('function', 'num_args', 'arg')),
-                            ('StringLiteral', ('value',)),
-                            ('BasicExprFactory', ('Copy', 'MakeStringLiteral'))):
+                            ('StringLiteral', ('value',))):
         def records(n):
             if n.get('kind') == 'CXXRecordDecl' and n.get('name') == clsname and n.get('completeDefinition'):
                 yield n
@@ -1099,6 +1256,7 @@ def main():
         L.append('/-- normalised syntax tree of `mp::%s` (include/mp/expr.h) -/' % key.replace('_', '::', 1))
         L.append('def helperShape_%s : Sx :=\n%s' % (key, sx_lean(t)))
         L.append('')
+    L += ['/-! ### memory layout the accessors and the factory agree on -/'] + layout_section(repo, work)
     L.append('end MpVerif.Gen.C18')
     text = '\n'.join(L) + '\n'
     if '--freeze' in sys.argv:
